@@ -1,7 +1,156 @@
 import Driver.Proto
+import GbVerif.Model.Debug
+import GbVerif.Spec.Debug
+import GbVerif.Gen.DecoderTable
 namespace Driver
+open GbVerif
 
-/-- C20 correspondence (stub) -/
-def checkC20 (l : Line) : Verdict := .bad s!"stream {l.stream} not implemented"
+namespace C20
+
+/-- comma-separated hexadecimal scalar values → chars -/
+def cpList (s : String) : List Char :=
+  if s = "" then [] else (s.splitOn ",").map fun h => Char.ofNat (parseHex h)
+
+/-- what the implementation answered: `none` = it panicked or built a variant outside the grammar -/
+def parseCmd (s : String) : Option (Option DebugSpec.Cmd) :=
+  match s.splitOn ":" with
+  | ["none"] => some none
+  | ["continue"] => some (some .continue_)
+  | ["readregs"] => some (some .readRegisters)
+  | ["step"] => some (some .step)
+  | ["breakset", n] => some (some (.breakSet n.toNat!))
+  | ["readmem", n] => some (some (.readMemory n.toNat!))
+  | _ => none
+
+def toSpec : Debug.Command → DebugSpec.Cmd
+  | .breakSet a => .breakSet a
+  | .continue_ => .continue_
+  | .readMemory a => .readMemory a
+  | .readRegisters => .readRegisters
+  | .step => .step
+
+def showCmd : Option DebugSpec.Cmd → String
+  | none => "none"
+  | some c => reprStr c
+
+/-- the spec's own stripping of surrounding whitespace (Unicode White_Space list of the spec) -/
+def specStrip (s : List Char) : List Char :=
+  ((s.dropWhile DebugSpec.whiteSpace).reverse.dropWhile DebugSpec.whiteSpace).reverse
+
+def checkAddr (l : Line) : Verdict :=
+  let tok := cpList (l.inS "cp")
+  let r := l.outS "r"
+  -- spec: the 16-bit address denoted by the token without its surrounding whitespace, else rejection
+  let expected := DebugSpec.address? (specStrip tok)
+  let model := Debug.parseAddress Debug.rust tok
+  if r == "panic" then .specDiff "parse_address panicked"
+  else
+    let impl : Option Nat := if r == "none" then none else some r.toNat!
+    if impl != expected then .specDiff s!"address: impl={impl} spec={expected}"
+    else if model != impl then .modelDiff s!"address: model={model} impl={impl}"
+    else .ok (!tok.isEmpty)
+
+def checkCmd (l : Line) : Verdict :=
+  let line := cpList (l.inS "cp")
+  let r := l.outS "r"
+  if r == "panic" then .specDiff "parse_command panicked (no result for this line)"
+  else match parseCmd r with
+    | none => .specDiff s!"parse_command returned a variant outside the command grammar: {r}"
+    | some impl =>
+      let model := (Debug.parseCommand Debug.rust line).map toSpec
+      if !DebugSpec.allows DebugSpec.whiteSpace line impl then
+        .specDiff s!"command: impl={showCmd impl} spec={showCmd (DebugSpec.command? DebugSpec.whiteSpace line)} (not allowed)"
+      else if model != impl then .modelDiff s!"command: model={showCmd model} impl={showCmd impl}"
+      else .ok impl.isSome
+
+/-- cut `bs` into pieces of the given lengths; `none` if they do not add up -/
+def cut : List Nat → List Nat → Option (List (List Nat))
+  | [], [] => some []
+  | [], _ :: _ => none
+  | n :: ns, bs =>
+    if bs.length < n ∨ n = 0 then none
+    else (cut ns (bs.drop n)).map fun rest => bs.take n :: rest
+
+def checkDisasm (l : Line) : Verdict :=
+  let addr := l.inN "addr"
+  let bytes := (parseBytes (l.inS "bytes")).toList
+  let dl := parseNatList (l.inS "dl")
+  let trunc := l.inN "trunc" == 1
+  let panicked := l.outS "panic" == "1"
+  let n := l.outN "n"
+  let a := parseNatList (l.outS "a")
+  let ls := parseNatList (l.outS "l")
+  let b := (parseBytes (l.outS "b")).toList
+  if !panicked && l.outN "unreadable" != 0 then .bad "Display form of an Instruction not readable"
+  else
+    -- spec side (premise: the sequence ends on an instruction boundary): the instructions as the real decoder
+    -- delimits them, laid out from `addr`
+    let specV : Option String :=
+      if trunc then none
+      else match cut dl bytes with
+        | none => some "harness: decoder lengths do not add up to the byte count"
+        | some is =>
+          let lay := DebugSpec.layout addr is
+          if panicked then some "disassemble panicked on a sequence of complete instructions"
+          else if n != is.length then some s!"count: impl={n} spec={is.length}"
+          else if ls != lay.map (·.length) then some s!"lengths: impl={ls} spec(decoder)={lay.map (·.length)}"
+          else if a != lay.map (·.address) then some s!"addresses: impl={a} spec={lay.map (·.address)}"
+          else if b != (lay.map (·.bytes)).flatten then some "bytes shown differ from the input"
+          else if ls.sum != bytes.length then some s!"lengths sum to {ls.sum}, input has {bytes.length} bytes"
+          else none
+    match specV with
+    | some m => if m.startsWith "harness" then .bad m else .specDiff m
+    | none =>
+      match Debug.disassemble addr bytes with
+      | .error e =>
+        if panicked then .ok false else .modelDiff s!"model fails with {reprStr e}, impl returned {n} instructions"
+      | .ok out =>
+        if panicked then .modelDiff s!"impl panicked, model returns {out.length} instructions"
+        else if out.length != n || out.map (·.address) != a || out.map (·.length) != ls
+            || (out.map (·.bytes)).flatten != b then
+          .modelDiff s!"model addresses={out.map (·.address)} lengths={out.map (·.length)}; impl a={a} l={ls}"
+        else .ok (n ≥ 2)
+
+def checkDec (l : Line) : Verdict :=
+  let b0 := l.inN "b0"; let b1 := l.inN "b1"
+  let len := l.outN "len"; let clk := l.outN "clk"
+  let inv := l.outN "inv" == 1; let p1 := l.outN "p1" == 1; let p2 := l.outN "p2" == 1
+  if Debug.decodeLen b0 [b1, 0x12] != some len then
+    .modelDiff s!"length: table={reprStr (Debug.decodeLen b0 [b1, 0x12])} impl={len}"
+  else if Gen.instrClocks b0 b1 != clk then .modelDiff s!"clocks: table={Gen.instrClocks b0 b1} impl={clk}"
+  else if (b0 != Gen.prefixByte && Gen.isInvalid b0) != inv then .modelDiff s!"invalid: table={Gen.isInvalid b0} impl={inv}"
+  else if (Debug.decodeLen b0 []).isNone != p1 then .modelDiff s!"1-byte slice: model panics={(Debug.decodeLen b0 []).isNone} impl={p1}"
+  else if (Debug.decodeLen b0 [b1]).isNone != p2 then .modelDiff s!"2-byte slice: model panics={(Debug.decodeLen b0 [b1]).isNone} impl={p2}"
+  else .ok (len > 1 || inv)
+
+/-- a lowercase expansion as far as a comparison with ASCII words can see it -/
+def asciiView (cs : List Char) : Option (List Char) := if cs.all DebugSpec.isAscii then some cs else none
+
+def checkUni (l : Line) : Verdict :=
+  let c := Char.ofNat (parseHex (l.inS "c"))
+  let ws := l.outN "ws" == 1
+  let lo := cpList (l.outS "lo")
+  let slo := cpList (l.outS "slo")
+  let asciiWs := c.toNat == 32 || (9 ≤ c.toNat && c.toNat ≤ 13)
+  if c.toNat < 128 && (ws != asciiWs || lo != [Debug.asciiLower c]) then
+    .modelDiff s!"assumption AsciiOk does not hold for std at U+{l.inS "c"}"
+  else if Debug.rust.isWhite c != ws then .modelDiff s!"is_whitespace: model={Debug.rust.isWhite c} std={ws}"
+  else if DebugSpec.whiteSpace c != ws then .modelDiff s!"White_Space list of the spec={DebugSpec.whiteSpace c} std={ws}"
+  else if asciiView (Debug.rust.lower c) != asciiView lo then
+    .modelDiff s!"to_lowercase (ASCII view): model={Debug.rust.lower c} std={lo}"
+  else if asciiView slo != asciiView lo then .modelDiff s!"str::to_lowercase differs from char::to_lowercase: {slo} vs {lo}"
+  else .ok (ws || lo != [c])
+
+end C20
+
+/-- C20 correspondence: `c20.addr`, `c20.cmd`, `c20.disasm`, `c20.dec`, `c20.uni` -/
+def checkC20 (l : Line) : Verdict :=
+  match l.stream with
+  | "c20.addr" => C20.checkAddr l
+  | "c20.cmd" => C20.checkCmd l
+  | "c20.disasm" => C20.checkDisasm l
+  | "c20.dec" => C20.checkDec l
+  | "c20.uni" => C20.checkUni l
+  | s => .bad s!"unknown C20 stream {s}"
 
 end Driver
